@@ -230,6 +230,10 @@ fn run_history_here(
                     let _ = runner.views();
                     runner.exec(&Op::Heal { inst });
                 }
+                if crate::net::is_cut() {
+                    let _ = runner.views();
+                    runner.exec(&Op::NetRestore);
+                }
             }
             if runner.dead.is_none() {
                 // Final quiescence.
